@@ -24,6 +24,7 @@ META["explanation"] += (" R12.4 an adapter that owns a buffer of diffs waiting t
                         "into_parts (post-domination): the handed-over view already contains those diffs (F10, repaired by a479776; the reverse patch re-fires).")
 META["explanation"] += ' R12.3 the view handed to the next stage is in source order (no odd number of rev() in the chain it is collected from).'
 META["explanation"] += " R12.5 into_parts only reads the adapter's own replica / limit / count when it hands the adapter on as the stream (no mem::take / assignment / in-place cut of those fields)."
+META["explanation"] += ' R12.4 counts an assignment to the waiting-diff buffer only if it does not store the old buffer again.'
 
 
 def run(ctx):
@@ -163,7 +164,10 @@ def r12_4(ctx):
         b = inl(F, f, desugar=True, tag="r12.4") or f.built
         for name in bufs:
             n += 1
-            clears = {loc[0] for loc, s_ in assigns_to_field(b, name)}
+            # an assignment counts only if what is stored is not the old buffer again (`stream.ready_values = ready_values` carries
+            # the waiting diffs over instead of discarding them)
+            clears = {loc[0] for loc, s_ in assigns_to_field(b, name)
+                      if not contains(b.expr_of_rv(s_["rv"], 10, ()), lambda y: y[0] == "field" and y[2] == name and contains(y[1], lambda z: z[0] == "param" and z[1] == 1))}
             for blk, t in b.calls(r"^std::mem::(take|replace|swap)$|::(clear|drain|truncate)$"):
                 if t["args"] and mentions_field(b.expr_of_op(t["args"][0]), name):
                     clears.add(blk)
